@@ -702,12 +702,18 @@ def rt_end_to_end(seed, n):
     rnd = random.Random(seed)
     out = []
     fam = M.family_basic('thorough', seed)
+    ufam = M.family_undiscounted('thorough')
     for k in range(n):
-        sk = fam[k % len(fam)]
-        g = rnd.choice([0.5, 0.8, 0.95])
-        for h, args in ((h_plan_vec, (sk, g, False, 100000)), (h_plan_dict, (sk, g, False, 100000)), (h_plan_pi, ([sk], g, False))):
+        if k % 3 == 2:
+            sk, g = ufam[(k // 3) % len(ufam)], 'one'
+        else:
+            sk, g = fam[k % len(fam)], rnd.choice([0.5, 0.8, 0.95])
+        und = rnd.choice([7, -50, 0])
+        for h, args in ((h_plan_vec, (sk, g, False, 100000, und)), (h_plan_dict, (sk, g, False, 100000, und)), (h_plan_pi, ([sk], g, False, und))):
             rp = S.run_concrete(h, args, {'tol': 1e-9}, rng=rnd)
             for c in rp['checks']:
+                if 'next-to-never-absorbing' in c['name']:
+                    continue       # F12a is decided (and reported as known finding) by the symbolic tasks
                 out.append(dict(name='rt:' + c['name'], ok=c['status'] == 'proved', detail=str(c.get('detail'))[:800],
                                 witness=dict(skel=sk.name, gamma=g, inputs=rp.get('inputs'))))
     return out
@@ -759,7 +765,7 @@ def tasks(tier, seed):
         T.append(Task('plan_vec/undiscounted/%s' % sk.name, h_plan_vec, (sk, 'one', True, 1000, 7, 'generic', 0), tier='B'))
         T.append(Task('plan_dict/undiscounted/%s' % sk.name, h_plan_dict, (sk, 'one', True, 1000, 7, 'generic', 0), tier='B'))
         T.append(Task('vi_tab/cut/undiscounted/%s' % sk.name, h_vi_tab_cut, (sk, 'one', 100000), tier='B'))
-    T.append(Task('rt/end-to-end', rt_end_to_end, (seed, 12 if tier == 'quick' else 60), tier='R', kind='rt',
+    T.append(Task('rt/end-to-end', rt_end_to_end, (seed, 18 if tier == 'quick' else 90), tier='R', kind='rt',
                   note='un-stubbed ValueIteration (both versions) and PolicyIteration on concrete MDPs; contract clauses evaluated on floats'))
     return T
 
